@@ -26,6 +26,12 @@ func (w *World) callSitesOf(fn *ssa.Function) []*ssa.Call {
 			})
 		}
 	}
+	if len(callSiteCache[fn]) == 0 {
+		// a function literal handed to a helper that only calls it: that call
+		if _, _, ic := passedVia(fn); ic != nil {
+			return []*ssa.Call{ic}
+		}
+	}
 	return callSiteCache[fn]
 }
 
@@ -371,6 +377,9 @@ func calledLiteral(f *ssa.Function) bool {
 	if f == nil || f.Parent() == nil {
 		return false
 	}
+	if oc, _, _ := passedVia(f); oc != nil {
+		return true
+	}
 	used := false
 	ok := true
 	allInstrs(f.Parent(), func(in ssa.Instruction) {
@@ -400,6 +409,76 @@ func calledLiteral(f *ssa.Function) bool {
 		}
 	})
 	return used && ok
+}
+
+// passedVia: f is a function literal whose only use is to be handed, where it is written, to a helper of the module that
+// does nothing with that parameter but call it (`r.withLock(func() { … })`): the literal runs, synchronously, on behalf
+// of the function that contains it. Returns the call that hands it over, the helper, and the helper's call of it.
+var passedViaCache = map[*ssa.Function]*[3]interface{}{}
+
+func passedVia(f *ssa.Function) (*ssa.Call, *ssa.Function, *ssa.Call) {
+	if f == nil || f.Parent() == nil || inlineOK == nil {
+		return nil, nil, nil
+	}
+	if c, ok := passedViaCache[f]; ok {
+		if c == nil {
+			return nil, nil, nil
+		}
+		return c[0].(*ssa.Call), c[1].(*ssa.Function), c[2].(*ssa.Call)
+	}
+	passedViaCache[f] = nil
+	var outer *ssa.Call
+	argIdx := -1
+	n, ok := 0, true
+	allInstrs(f.Parent(), func(in ssa.Instruction) {
+		mc, isMC := in.(*ssa.MakeClosure)
+		if !isMC || mc.Fn != ssa.Value(f) {
+			return
+		}
+		n++
+		for _, rf := range *mc.Referrers() {
+			switch x := rf.(type) {
+			case *ssa.DebugRef:
+			case *ssa.Call:
+				if x.Call.Value == ssa.Value(mc) || outer != nil {
+					ok = false
+					continue
+				}
+				for i, a := range x.Call.Args {
+					if a == ssa.Value(mc) {
+						outer, argIdx = x, i
+					}
+				}
+			default:
+				ok = false
+			}
+		}
+	})
+	if !ok || n != 1 || outer == nil {
+		return nil, nil, nil
+	}
+	h := outer.Call.StaticCallee()
+	if h == nil || h.Blocks == nil || !inlineOK(h) || argIdx >= len(h.Params) {
+		return nil, nil, nil
+	}
+	var inner *ssa.Call
+	for _, rf := range *h.Params[argIdx].Referrers() {
+		switch x := rf.(type) {
+		case *ssa.DebugRef:
+		case *ssa.Call:
+			if x.Call.Value != ssa.Value(h.Params[argIdx]) || inner != nil {
+				return nil, nil, nil
+			}
+			inner = x
+		default:
+			return nil, nil, nil
+		}
+	}
+	if inner == nil {
+		return nil, nil, nil
+	}
+	passedViaCache[f] = &[3]interface{}{outer, h, inner}
+	return outer, h, inner
 }
 
 func (w *World) ownerFn(f *ssa.Function) *ssa.Function {
